@@ -33,10 +33,10 @@ META = dict(
                'tdms.TdmsChannel.data', 'tdms.ChannelDataChunk._data', 'tdms.TdmsChannel.__len__', 'scaling.*.scale'],
     bounds=dict(quick='15 raw types x 11 scale kinds (string/timestamp unscaled only) x eager/lazy; 2 segments, 2+1 values; windows '
                       'unbounded (lazy)', thorough='same plus zero-length channels and raw_timestamps'),
-    outside=['scale graphs deeper than 1 (C13)', 'DAQmx', 'NumPy promotion rules themselves'],
+    outside=['scale graphs deeper than 1 (C13)', 'DAQmx channels beyond one raw scaler per channel', 'NumPy promotion rules themselves'],
     stubs=c04.META['stubs'],
     assumptions=c04.META['assumptions'] + ['NumPy type promotion does not depend on values'],
-    buckets=dict(all=['empty-result', 'nonempty-result', 'chunk-dtype', 'scaled-dtype', 'len']),
+    buckets=dict(all=['empty-result', 'nonempty-result', 'chunk-dtype', 'scaled-dtype', 'len', 'daqmx-dtype']),
     replays_per_signature=2,
     validate_samples=8,
 )
@@ -98,6 +98,9 @@ def tasks(tier, seed):
     for t in NUMERIC:
         for sc in COEF_SCALES:
             ts.append(dict(kind='coef', tcode=t, scale=sc))
+    for variant in range(4):
+        for mode in ('eager', 'lazy'):
+            ts.append(dict(kind='daqmx', variant=variant, mode=mode))
     for t in RAW_TYPES:
         for sc in SCALES:
             if t in (0x20, 0x44, 0x21) and sc != 'none':
@@ -281,9 +284,99 @@ def _replay_coef(art):
     return None
 
 
+def _daqmx_file(variant):
+    """DAQmx file whose channel 'ai0' is scaled by its raw scaler 0 (NI_Number_Of_Scales = 1, no Scale_Type): format-changing
+    int16 / float32 scalers and digital lines (uint8 / uint16 words), both byte orders"""
+    from .. import daqmxmodel as dm
+    S = dm.Scaler
+    props = [('NI_Number_Of_Scales', 7, 1)]
+    big = variant % 2 == 1
+    if variant < 2:
+        t = 3 if variant == 0 else 8
+        w = dm.DTYPES[t][1] + 2
+        chans = [dm.Chan("/'g'/'a'", [S(0, t, 0, 1)], 2, props), dm.Chan("/'g'/'b'", [S(0, 0, 0, 0)], 2, props)]
+        widths = [w]
+    else:
+        t = 0 if variant == 2 else 2
+        chans = [dm.Chan("/'g'/'a'", [S(0, t, 0, 3, True)], 2, props), dm.Chan("/'g'/'b'", [S(0, 0, 0, 9, True)], 2, props)]
+        widths = [2]
+    segs = [dict(chans=chans, widths=widths, nchunks=2, big=big), dict(chans=chans, widths=widths, nchunks=1, big=big)]
+    data, info = dm.encode(segs)
+    return data, 6
+
+
+def _run_daqmx(task):
+    from nptdms import TdmsFile
+    import numpy as np
+    data, n = _daqmx_file(task['variant'])
+    eager = task['mode'] == 'eager'
+    ops = OPS_EAGER if eager else OPS_LAZY
+
+    def fn(ctx):
+        op = ops[ctx.choice('op', len(ops))]
+        f = io.BytesIO(data)
+        tf = TdmsFile.read(f) if eager else TdmsFile.open(f)
+        try:
+            ch = tf['g']['a']
+            ctx.obligations += 1
+            if len(ch) != n:
+                ctx.fail('len', got=len(ch), expected=n)
+            ctx.discharged += 1
+            declared = ch.dtype
+            try:
+                res = do_op(tf, ch, op, ctx.int, n, eager)
+            except PathAbort:
+                raise
+            except Exception as e:
+                ctx.fail('exception', exc=type(e).__name__, msg=str(e)[:80], op=op)
+            for label, arr in res:
+                ctx.obligations += 1
+                if not hasattr(arr, 'dtype'):
+                    ctx.fail('not-an-array', op=label, declared=str(declared), got=type(arr).__name__)
+                if np.dtype(arr.dtype).newbyteorder('=') != np.dtype(declared).newbyteorder('='):      # byte order is not part of the claim
+                    ctx.fail('dtype-mismatch', op=label, declared=str(declared), got=str(arr.dtype), empty=bool(np.size(arr) == 0))
+                ctx.discharged += 1
+                ctx.note('empty-result' if np.size(arr) == 0 else 'nonempty-result')
+            ctx.note('daqmx-dtype')
+        finally:
+            tf.close()
+
+    st = explore(fn, max_paths=5000, time_budget=300)
+    st.pop('wall_s', None)
+    return st
+
+
+def _replay_daqmx(art):
+    from nptdms import TdmsFile
+    import numpy as np
+    task, inp = art['task'], art['inputs']
+    data, n = _daqmx_file(task['variant'])
+    eager = task['mode'] == 'eager'
+    ops = OPS_EAGER if eager else OPS_LAZY
+    op = ops[inp.get('op', 0)]
+    f = io.BytesIO(data)
+    tf = TdmsFile.read(f) if eager else TdmsFile.open(f)
+    try:
+        ch = tf['g']['a']
+        if len(ch) != n:
+            return dict(sig='C14/len/daqmx', got=len(ch), expected=n)
+        try:
+            res = do_op(tf, ch, op, lambda name, lo=None, hi=None: inp[name], n, eager)
+        except Exception as e:
+            return dict(sig='C14/exception/daqmx/%s' % type(e).__name__, exception=repr(e)[:200])
+        for label, arr in res:
+            if not hasattr(arr, 'dtype') or np.dtype(arr.dtype).newbyteorder('=') != np.dtype(ch.dtype).newbyteorder('='):
+                return dict(sig='C14/dtype-mismatch/daqmx/%d' % task['variant'], op=label, declared=str(ch.dtype), got=str(getattr(arr, 'dtype', type(arr).__name__)))
+        return None
+    finally:
+        tf.close()
+
+
 def run_task(task):
     from nptdms import TdmsFile
     import numpy as np
+    if task.get('kind') == 'daqmx':
+        return _run_daqmx(task)
     if task.get('kind') == 'coef':
         return _run_coef(task)
     sh = make_shape(task['tcode'], task['scale'], task['zero'])
@@ -340,6 +433,11 @@ def run_task(task):
 
 def signature(c):
     t = c['task']
+    if t.get('kind') == 'daqmx':
+        what = c.get('what', '')
+        if what == 'exception':
+            return 'C14/exception/daqmx/%s' % c.get('exc')
+        return 'C14/%s/daqmx%s' % (what, '/%d' % t['variant'] if what == 'dtype-mismatch' else '')
     return 'C14/%s/%s/%s' % (c.get('what', ''), tm.TYPES[t['tcode']][0], t['scale'].split('+')[-1].replace('Polynomial0', 'Polynomial'))
 
 
@@ -347,6 +445,8 @@ def replay(art):
     from nptdms import TdmsFile
     import numpy as np
     task, inp = art['task'], art['inputs']
+    if task.get('kind') == 'daqmx':
+        return _replay_daqmx(art)
     if task.get('kind') == 'coef':
         return _replay_coef(art)
     sh = make_shape(task['tcode'], task['scale'], task['zero'])
